@@ -236,6 +236,7 @@ def main():
         infra('proof audit failed:\n  ' + '\n  '.join(problems))
 
     # ---- 3. correspondence + oracles
+    core.quiet()
     mod = importlib.import_module('harness.props.' + pid.lower())
     try:
         if a.replay:
